@@ -187,9 +187,14 @@ package manager
 // The release function createConn hands on (a connection manager's done function).
 //@ func result (*Manager).createConn
 //@   note release functions are assumed not to touch the manager or the callback trace
+// The deferred error report of an attempt runs on the monitoring goroutine itself (so that it is over before the
+// completion signal Remove waits for), once, exactly when the attempt failed and a handler is installed.
 //@ func (*Manager).monitor$1
 //@   props C13 C12
 //@   requires m != nil && ta != nil
+//@   ensures [error-reported-on-the-monitoring-goroutine C13] spawns() == old(spawns())
+//@   ensures [a-failed-attempt-is-reported-once C13] hits("call field Manager.connectError#0") == old(hits("call field Manager.connectError#0")) + ite(err != nil && m.connectError != nil, 1, 0)
+//@   assert at call field Manager.connectError#0: [reported-for-this-target-with-its-error C13] arg0 == ta.name && arg1 == err
 
 // The retry loop: every attempt starts outside a session and ends outside one, so a
 // Connect is always preceded by the Reset of the previous session; the loop ends only
